@@ -1860,3 +1860,108 @@ func (c *Ctx) rulesR4fresh() {
 		c.undecided(fmt.Sprintf("C20.fresh: only %d Time/S methods examined (expected >= 8)", n))
 	}
 }
+
+// rulesR4nilctx: C20.nilctx
+func (c *Ctx) rulesR4nilctx() {
+	c.rule("C20.nilctx", "an exported function or method of pkg/machine that takes a context.Context invokes it (Err, Done, Value, Deadline) only under a ctx != nil check, in its own body and in the closures it starts: the API documents the context of the wait and fork helpers as optional (nil is passed throughout the repository), and a method call on a nil interface panics - inside a goroutine started by Go/GoAfter that kills the process")
+	n := 0
+	isCtx := func(t types.Type) bool {
+		nt := namedOf(t)
+		return nt != nil && nt.Obj().Pkg() != nil && nt.Obj().Pkg().Path() == "context" && nt.Obj().Name() == "Context"
+	}
+	for _, f := range c.Funcs {
+		if f.Parent() != nil || f.Pkg == nil || relPkg(f.Pkg.Pkg.Path()) != pm || !isExportedFunc(f) {
+			continue
+		}
+		if f.Name() == "New" || f.Name() == "NewCommon" {
+			continue // the constructor's parent context is mandatory
+		}
+		if funcKey(f) == pm+":EvToCtx" {
+			continue // derives a child context with context.WithValue, which itself rejects a nil parent
+		}
+		for _, p := range f.Params {
+			if !isCtx(p.Type()) {
+				continue
+			}
+			// uses of p as the receiver of an invoke, here or in closures capturing it.
+			// v is the value itself, or (addr true) the address of the variable holding it
+			sameVar := func(x ssa.Value, v ssa.Value, addr bool) bool {
+				if !addr {
+					return x == v
+				}
+				u, ok := x.(*ssa.UnOp)
+				return ok && u.Op == token.MUL && u.X == v
+			}
+			seen := map[ssa.Value]bool{}
+			var visit func(g *ssa.Function, v ssa.Value, addr bool)
+			visit = func(g *ssa.Function, v ssa.Value, addr bool) {
+				if v.Referrers() == nil || seen[v] {
+					return
+				}
+				seen[v] = true
+				for _, r := range *v.Referrers() {
+					switch x := r.(type) {
+					case *ssa.Store:
+						if !addr && x.Val == v {
+							if al, ok := x.Addr.(*ssa.Alloc); ok {
+								visit(g, al, true)
+							}
+						}
+					case *ssa.UnOp:
+						if addr && x.Op == token.MUL && x.X == v {
+							// a load of the variable: look at its invokes
+							if x.Referrers() == nil {
+								continue
+							}
+							for _, r2 := range *x.Referrers() {
+								ci, ok := r2.(ssa.CallInstruction)
+								if !ok || !ci.Common().IsInvoke() || ci.Common().Value != ssa.Value(x) {
+									continue
+								}
+								n++
+								c.check(nilGuarded(ci, v, true, sameVar), "C20.nilctx", fmt.Sprintf("%s: %s.%s() is called under a nil check", funcKey(ci.Parent()), p.Name(), ci.Common().Method.Name()), ci.Pos(),
+									"the context parameter is invoked without a dominating ctx != nil check: a nil context panics here")
+							}
+						}
+					case ssa.CallInstruction:
+						cc := x.Common()
+						if !addr && cc.IsInvoke() && cc.Value == v {
+							n++
+							c.check(nilGuarded(x, v, false, sameVar), "C20.nilctx", fmt.Sprintf("%s: %s.%s() is called under a nil check", funcKey(g), p.Name(), cc.Method.Name()), x.Pos(),
+								"the context parameter is invoked without a dominating ctx != nil check: a nil context panics here")
+						}
+					case *ssa.MakeClosure:
+						fn := x.Fn.(*ssa.Function)
+						for i, b := range x.Bindings {
+							if b == v && i < len(fn.FreeVars) {
+								visit(fn, fn.FreeVars[i], addr)
+							}
+						}
+					}
+				}
+			}
+			visit(f, p, false)
+		}
+	}
+	if n < 5 {
+		c.undecided(fmt.Sprintf("C20.nilctx: only %d context invocations found", n))
+	}
+}
+
+
+func nilGuarded(at ssa.Instruction, v ssa.Value, addr bool, sameVar func(x, v ssa.Value, addr bool) bool) bool {
+	for _, gd := range guardsOf(at.Block()) {
+		gg := expandGuard(gd)[0]
+		bo, ok := gg.Cond.(*ssa.BinOp)
+		if !ok {
+			continue
+		}
+		isNil := func(y ssa.Value) bool { k, ok := y.(*ssa.Const); return ok && k.IsNil() }
+		if (sameVar(bo.X, v, addr) && isNil(bo.Y)) || (sameVar(bo.Y, v, addr) && isNil(bo.X)) {
+			if (bo.Op == token.NEQ && gg.Pol) || (bo.Op == token.EQL && !gg.Pol) {
+				return true
+			}
+		}
+	}
+	return false
+}
